@@ -121,6 +121,9 @@ func (env *Env) rangeAssume(st *State, v Val) {
 		if env.c.bv {
 			return
 		}
+		if (env.contract || env.noSafety) && intBits(t) == 64 && !isUnsigned(t) {
+			return
+		}
 		if len(v.T) > 0 && (v.T[0] >= '0' && v.T[0] <= '9') {
 			return
 		}
